@@ -96,6 +96,63 @@ def statement_graphs(s: str):
 # ---------------------------------------------------------------------------
 # the exactness checks C01 (tables) and C02 (columns)
 # ---------------------------------------------------------------------------
+
+def _frag_stmt(st):
+    """inside the syntactic fragment Tree/Render.v renders (the Coq guard stmt_ok && sshape decides finally)"""
+    def q_(q, top):
+        if q[0] == "select":
+            return all((i[0] == "star" and "." not in (i[1] or "")) or (i[0] == "expr" and i[1][0] == "col" and "." not in (i[1][1] or "")) for i in q[1]) and \
+                all(rr[0] == "table" or (rr[0] == "derived" and q_(rr[1], False)) for rr in q[2]) and (q[4] is None or q_(q[4][1], False))
+        if q[0] == "union":
+            return q[1][0] == "select" and q[2][0] == "select" and q_(q[1], False) and q_(q[2], False)
+        return top and q[2][0] != "with" and q[3][0] != "with" and q_(q[2], False) and q_(q[3], False)
+    qq = astgen.stmt_query(st)
+    return qq is not None and q_(qq, True)
+
+
+def _show_tree(x):
+    kids = [k for k in x.segments if not (k.is_whitespace or k.is_comment or k.is_meta)]
+    head = x.type + "/" + x.get_type() + "/" + ",".join(sorted(c for c in x.class_types if c != "base"))
+    return head + ("=" + x.raw if not x.segments else "(" + " ".join(_show_tree(k) for k in kids) + ")")
+
+
+def _parse_show(job):
+    d, sql = job
+    import logging
+    import warnings
+    warnings.filterwarnings("ignore")
+    logging.disable(logging.CRITICAL)
+    from sqllineage.core.parser.sqlfluff.analyzer import SqlFluffLineageAnalyzer
+    try:
+        return _show_tree(SqlFluffLineageAnalyzer(".", d)._list_specific_statement_segment(sql)[0])
+    except Exception as e:      # noqa
+        return "ERR:" + type(e).__name__
+
+
+def render_per_dialect(r, n, dialects):
+    """for n generated statements inside the domain of Lemma A: {dialect: [(sql, same_layout_as_r_stmt, parser_tree, rendered)]}"""
+    import multiprocessing as mp
+    fr, tries = [], 0
+    while len(fr) < n and tries < 40000:
+        tries += 1
+        st = astgen.gen_stmt(r, r.choice([0, 1, 2]), False)
+        if _frag_stmt(st):
+            fr.append(st)
+    rend = coq_eval("From SV Require Import Tree.Render Tree.LemmaA Tree.LemmaAProofs.\nOpen Scope string_scope.",
+                    ["(show_render %s ++ \"|\" ++ (if stmt_ok %s && sshape %s then \"in\" else \"out\"))%%string"
+                     % (astgen.g_stmt(st), astgen.g_stmt(st), astgen.g_stmt(st)) for st in fr], shard=100)
+    keep = [(st, m.rpartition("|")[0]) for st, m in zip(fr, rend) if m.endswith("|in")]
+    sqls = [astgen.to_sql(st, astgen.Opts(kw_case="lower", trailing="")) for st, _ in keep]
+    jobs = [(d, q) for d in dialects for q in sqls]
+    with mp.get_context("fork").Pool(16) as pool:
+        trees = pool.map(_parse_show, jobs, chunksize=8)
+    out = {}
+    for (d, q), t in zip(jobs, trees):
+        m = keep[sqls.index(q)][1]
+        out.setdefault(d, []).append((q, t == m, t, m))
+    return out
+
+
 def exactness_check(pid: str, part: str) -> int:
     import corpus
     import gen_witness
